@@ -170,4 +170,16 @@ Definition crank (c : mcons) : nat := match cw c with WaitA | WaitB => 2 | CopyA
 Definition prank (p : prod) : nat := 3 * length (pitems p) + match pph p with PIdle => 1 | _ => 0 end.
 Definition mmeasure (m : mstate) : nat := prank (pa m) + prank (pb m) + crank (mc m).
 
+(* a canonical completion (to make the protocol a function): serve the channel the consumer is waiting on *)
+Definition mpick (m : mstate) : mchoice :=
+  match wants (mc m) with
+  | Some s => match pph (get s m) with PIdle => MCheck s | PReady => MXfer s | PClosed => MEof s end
+  | None => MCheck SA
+  end.
+Fixpoint mdrive (n : nat) (m : mstate) : mstate :=
+  match n with
+  | O => m
+  | S n' => if is_done (mc m) then m else mdrive n' (mstep m (mpick m))
+  end.
+
 End MergeChan.
